@@ -56,6 +56,10 @@ def blame_case(rng):
         opts['--blame-separator-format'] = rng.choice(['│{n:^4}│', '{n:>3} ', 'none', '{n:^4_block}'])
     if rng.random() < 0.3:
         opts['--width'] = rng.choice([60, 100])
+    if rng.random() < 0.5:
+        # widths and precisions on the fields (with hyperlinks the commit field also carries a link)
+        opts['--blame-format'] = rng.choice(['{commit:<12}¦{author:<10}', '{commit:<8.6} {author}', '{author:<10.5}|{commit:>14.8}', '{timestamp:<18}{commit:^16}',
+                                             '{commit:<9.7}{author:>12.3}{timestamp}'])
     parent = ['git', 'blame', rng.choice(['src/f.rs', 'a.py', 'Makefile'])] if rng.random() < 0.5 else None
     return {'kind': 'blame', 'parent': parent, 'model': m, 'lines': text.rstrip('\n').split('\n'), 'opts': opts, 'meta': {'classes': ['blame']}, 'view': 'blame'}
 
